@@ -133,6 +133,8 @@ type Ctx struct {
 	pendingShift  int
 	noWF          bool
 	noClosed      bool
+	pureGround    map[string]bool
+	pureTemplates map[string][]pureTemplate
 	extraUses     []string
 	curArgs       []Val
 	curState      *State
